@@ -18,12 +18,15 @@ type genValue struct {
 	kind   string
 	family string
 	labels map[string]int
+	// trespass reports a write behind a slice that was handed to the library as the front of a larger
+	// buffer of the caller's (gen.G.Carve)
+	trespass func() string
 }
 
 func anyValue(rt *rapid.T, budget int) genValue {
 	g := gen.New(rt, budget)
 	g.LateGrowth = true
-	gv := genValue{labels: g.Labels}
+	gv := genValue{labels: g.Labels, trespass: g.Trespass}
 	switch gen.Pick(rt, "value_family", 12) {
 	case 0, 1:
 		m, _, k := g.Message()
